@@ -71,6 +71,17 @@ func alphaReorder(t int) []sym {
 	return append(a, sym{T: t, D: "S-", K: "R"}, sym{T: t, D: "f", K: "P"})
 }
 
+// alphaZero: zero-duration segments (two random-access units with the same time stamp, with and without a parameter change).
+func alphaZero(t int) []sym {
+	var a []sym
+	for _, d := range []string{"0", "f", "S"} {
+		for _, k := range []string{"R", "P", "n"} {
+			a = append(a, sym{T: t, D: d, K: k})
+		}
+	}
+	return a
+}
+
 func alphaInterleave(cfg muxCfg) []sym {
 	var a []sym
 	for i, t := range cfg.Tracks {
@@ -115,6 +126,8 @@ func (g e1Grid) alphabet() []sym {
 		return alphaInterleave(g.cfg)
 	case "reorder":
 		return alphaReorder(g.cfg.leading())
+	case "zero":
+		return alphaZero(g.cfg.leading())
 	}
 	return alphaAudio(g.cfg)
 }
@@ -144,6 +157,9 @@ func e1BaseGrid(tier string) []e1Grid {
 		{mcfg("mpegts", false, 3, "h264b"), "reorder"},
 		{mcfg("fmp4", false, 3, "h264b"), "reorder"},
 		{mcfg("ll", false, 7, "h264b"), "reorder"},
+		{mcfg("mpegts", false, 3, "h264"), "zero"},
+		{mcfg("fmp4", false, 3, "h264"), "zero"},
+		{mcfg("ll", false, 7, "h264", "aac44"), "zero"},
 	}
 	// other SegmentMinDuration / PartMinDuration / SegmentCount values
 	with := func(c muxCfg, segMS, partMS int) muxCfg {
